@@ -24,7 +24,7 @@ META = {
                 'valid factorisations at threshold 0 is C12); exp is uninterpreted, only exp > 0 is assumed for the sign statement', 'sizes beyond the bounds', 'float-literal constants are taken as the '
                 'IEEE doubles the source denotes'],
     'assumptions': ['rates > 0', 'sin/cos uninterpreted (Kuramoto)'],
-    'tv_per_scenario': {'quick': 1, 'thorough': 1},
+    'tv_per_scenario': {'quick': 1000, 'thorough': 1000},
 }
 
 
